@@ -1,7 +1,9 @@
 (* C18 — model of the descheduler's LowNodeLoad balance plugin
    (pkg/descheduler/framework/plugins/loadaware/{low_node_load,utilization_util}.go,
     pkg/descheduler/utils/anomaly/basic_detector.go).
-   One plugin instance with ONE node pool, driven for several successive Balance rounds.
+   One plugin instance with a LIST of node pools (LowNodeLoadArgs.NodePools, processed in order
+   by every Balance call, sharing the processedNodes set of the call and the two detector caches
+   of the plugin), driven for several successive Balance rounds.
    Executable, total, no proofs in this file. *)
 From Coq Require Import String List ZArith Bool.
 From Verif Require Import Gen.Gen_consts Gen.Gen_funcs.
@@ -111,22 +113,36 @@ Record pod := mkPod {
 Notation pkeyT := (Z * Z)%type.
 Definition pkey (p : pod) : pkeyT := (pns p, pid p).
 
-Record nstat := mkNstat { ncapc : Z; ncapm : Z; ncapp : Z; nmember : bool }.
+(* [nlabel]: value of the node label the pool selectors look at: 0 = label absent, 1 = "a", 2 = "b".
+   [nrawk]: the node.koordinator.sh/raw-allocatable annotation (resource amplification), which
+   GetNodeRawAllocatableFromNode prefers to status.allocatable: 0 absent, 1 a list with cpu, memory
+   and pods [nrawc nrawm nrawp], 2 a list with cpu only (the other capacities then read as 0),
+   3 not JSON (falls back to status.allocatable) *)
+Record nstat := mkNstat { ncapc : Z; ncapm : Z; ncapp : Z; nlabel : Z;
+                          nrawk : Z; nrawc : Z; nrawm : Z; nrawp : Z }.
 
 (* per round and node: spec.unschedulable, metric freshness (1 = NodeMetric present, reported
    and not expired), system usage, pods assigned to the node *)
 Record nround := mkNround {
-  runsched : bool; rfresh : Z; rsysc : Z; rsysm : Z; rpods : list pod }.
+  runsched : bool; rfresh : Z; rsysc : Z; rsysm : Z; rpods : list pod;
+  (* further entries of NodeMetric.status.podsMetric, listed BEFORE those of the assigned pods:
+     (namespace, name, cpu, memory) of pods that are not (no longer) assigned to the node, or a
+     second entry for an assigned pod (the pod's own entry, being later, is the one evictPods uses) *)
+  rextra : list (Z * Z * Z * Z) }.
 
 (* thresholds per dimension cpu / memory / pods: low, high, prodLow, prodHigh in percent;
    -1 in low (resp. prodLow) = the pair is absent from the configured maps *)
 Record thr4 := mkThr4 { tlow : Z; thigh : Z; tplow : Z; tphigh : Z }.
 
+(* one node pool together with the plugin-wide arguments (NumberOfNodes, DryRun, NodeFit are the
+   same in every pool of a plugin instance) *)
 Record cfg := mkCfg {
   cN : Z;            (* NumberOfNodes *)
   cdry : bool;       (* DryRun *)
   cfit : bool;       (* NodeFit *)
-  csel : bool;       (* pool has a node selector *)
+  csel : Z;          (* NodeSelector of the pool: 0 nil, 1 {} (empty, not nil), 2 matchLabels a,
+                        3 matchLabels b, 4 Exists, 5 In [a], 6 In [a,b], 7 NotIn [a],
+                        8 DoesNotExist, 9 empty non-nil matchLabels and matchExpressions *)
   cdev : bool;       (* UseDeviationThresholds *)
   canom : bool;      (* AnomalyCondition != nil *)
   cK : Z; cKn : Z;   (* ConsecutiveAbnormalities / ConsecutiveNormalities *)
@@ -190,14 +206,27 @@ Definition sumf {A} (f : A -> Z) (l : list A) : Z := fold_right (fun x s => f x 
 Definition countf {A} (f : A -> bool) (l : list A) : Z := Z.of_nat (length (filter f l)).
 
 (* usage[r] = system usage + sum of the reported pod usages; usage[pods] = number of pods *)
+Definition xkey (e : Z * Z * Z * Z) : pkeyT := (fst (fst (fst e)), snd (fst (fst e))).
+Definition xcpu (e : Z * Z * Z * Z) : Z := snd (fst e).
+Definition xmem (e : Z * Z * Z * Z) : Z := snd e.
+Definition pkey_in (k : pkeyT) (ps : list pod) : bool :=
+  existsb (fun p => (fst (pkey p) =? fst k) && (snd (pkey p) =? snd k)) ps.
+(* every entry of podsMetric counts, whether or not its pod is (still) on the node *)
 Definition usage3 (r : nround) : list Z :=
-  [ rsysc r + sumf pcpu (filter pmet (rpods r));
-    rsysm r + sumf pmem (filter pmet (rpods r));
+  [ rsysc r + sumf pcpu (filter pmet (rpods r)) + sumf xcpu (rextra r);
+    rsysm r + sumf pmem (filter pmet (rpods r)) + sumf xmem (rextra r);
     Z.of_nat (length (rpods r)) ].
+(* prod usage: the entries whose (namespace, name) is that of a prod pod on the node *)
 Definition produsage3 (r : nround) : list Z :=
   let pp := filter is_prod (rpods r) in
-  [ sumf pcpu (filter pmet pp); sumf pmem (filter pmet pp); Z.of_nat (length pp) ].
-Definition cap3 (s : nstat) : list Z := [ncapc s; ncapm s; ncapp s].
+  let xs := filter (fun e => pkey_in (xkey e) pp) (rextra r) in
+  [ sumf pcpu (filter pmet pp) + sumf xcpu xs; sumf pmem (filter pmet pp) + sumf xmem xs;
+    Z.of_nat (length pp) ].
+(* GetNodeRawAllocatableFromNode *)
+Definition cap3 (s : nstat) : list Z :=
+  if nrawk s =? 1 then [nrawc s; nrawm s; nrawp s]
+  else if nrawk s =? 2 then [nrawc s; 0; 0]
+  else [ncapc s; ncapm s; ncapp s].
 
 (* what one eviction of the pod subtracts from the running estimates *)
 Definition pdec3 (p : pod) : list Z := [pcpu p; pmem p; 1].
@@ -205,7 +234,24 @@ Definition pdec3 (p : pod) : list Z := [pcpu p; pmem p; 1].
 (* a node of the pool whose metrics are usable in this round *)
 Record mnode := mkMnode { mid : Z; mstat : nstat; mrnd : nround }.
 
-Definition in_pool (c : cfg) (s : nstat) : bool := negb (csel c) || nmember s.
+(* labels.Selector.Matches for the selector kinds above *)
+Definition sel_match (k l : Z) : bool :=
+  if (k =? 1) || (k =? 9) then true
+  else if (k =? 2) || (k =? 5) then l =? 1
+  else if k =? 3 then l =? 2
+  else if (k =? 4) || (k =? 6) then negb (l =? 0)
+  else if k =? 7 then negb (l =? 1)
+  else if k =? 8 then l =? 0
+  else false.
+Definition memz (x : Z) (l : list Z) : bool := existsb (Z.eqb x) l.
+
+(* filterNodes: a nil selector returns ALL nodes, without looking at processedNodes; any other
+   selector drops the nodes already processed as sources by an earlier pool of this Balance call.
+   [fxp] = repaired variant (finding C18-processed-nodes): processedNodes is honoured for a nil
+   selector as well *)
+Definition in_pool (fxp : bool) (c : cfg) (processed : list Z) (id : Z) (s : nstat) : bool :=
+  if csel c =? 0 then (if fxp then negb (memz id processed) else true)
+  else negb (memz id processed) && sel_match (csel c) (nlabel s).
 
 Fixpoint number {A B} (i : Z) (a : list A) (b : list B) : list (Z * A * B) :=
   match a, b with
@@ -214,9 +260,10 @@ Fixpoint number {A B} (i : Z) (a : list A) (b : list B) : list (Z * A * B) :=
   end.
 
 (* nodes of the pool (filterNodes) *)
-Definition pool_nodes (c : cfg) (ns : list nstat) (rs : list nround) : list mnode :=
+Definition pool_nodes (fxp : bool) (c : cfg) (processed : list Z) (ns : list nstat) (rs : list nround)
+  : list mnode :=
   map (fun t => mkMnode (fst (fst t)) (snd (fst t)) (snd t))
-      (filter (fun t => in_pool c (snd (fst t))) (number 1 ns rs)).
+      (filter (fun t => in_pool fxp c processed (fst (fst t)) (snd (fst t))) (number 1 ns rs)).
 (* ... that made it into nodeUsages *)
 Definition fresh_nodes (ms : list mnode) : list mnode :=
   filter (fun m => rfresh (mrnd m) =? 1) ms.
@@ -283,14 +330,13 @@ Definition mk_row (c : cfg) (avgs pavgs : list fl) (m : mnode) : row :=
         (classify (runsched (mrnd m)) u pu lo hi plo phi)
         (node_score c (usage3 (mrnd m)) caps) (node_score c (produsage3 (mrnd m)) caps).
 
-Definition table (c : cfg) (ns : list nstat) (rs : list nround) : list row :=
-  let ms := fresh_nodes (pool_nodes c ns rs) in
+(* the table of a pool whose nodes (after filterNodes) are [pool] *)
+Definition table_of (c : cfg) (pool : list mnode) : list row :=
+  let ms := fresh_nodes pool in
   let avgs := map (avg_pct ms (fun m => usage3 (mrnd m))) [0; 1; 2]%nat in
   let pavgs := map (avg_pct ms (fun m => produsage3 (mrnd m))) [0; 1; 2]%nat in
   map (mk_row c avgs pavgs) ms.
 
-Definition pool_size (c : cfg) (ns : list nstat) (rs : list nround) : Z :=
-  Z.of_nat (length (pool_nodes c ns rs)).
 Definition dims (c : cfg) : nat := length (filter (fun b => b) (active c)).
 
 (* ------------------------------------------------------------------------------------ *)
@@ -502,30 +548,96 @@ Definition process_pool (c : cfg) (tbl : list row) (psize : Z) (ds : dstate) : l
           (evs, (mark_nodes_normal abn' dn, mark_nodes_normal pabn' dp)).
 
 (* ---- repaired variant (finding C18-anomaly-not-consecutive) ----
-   forgetNonSourceNodes: before anything else the detectors of the pool's nodes that are not
-   sources in this round are dropped (one pool: every detector belongs to a pool node), so only
+   forgetNonSourceNodes: before anything else the detectors of the pool's nodes (all nodes
+   returned by filterNodes, fresh or not) that are not sources in this round are dropped, so only
    uninterrupted runs of abnormal rounds are counted.
    [reset_on_normal] says which variant /repo contains; flip it to [true] once the fix is in. *)
 Definition reset_on_normal : bool := true.
 
-Definition forget (src : list row) (m : dmap) : dmap :=
-  filter (fun kv => existsb (Z.eqb (fst kv)) (map rid src)) m.
-Definition pre_round (fx : bool) (tbl : list row) (ds : dstate) : dstate :=
-  if fx then (forget (filter (has_cls cHigh) tbl) (fst ds), forget (filter (has_cls cProdHigh) tbl) (snd ds))
+Definition forget (pool : list Z) (src : list row) (m : dmap) : dmap :=
+  filter (fun kv => negb (memz (fst kv) pool) || memz (fst kv) (map rid src)) m.
+Definition pre_round (fx : bool) (pool : list Z) (tbl : list row) (ds : dstate) : dstate :=
+  if fx then (forget pool (filter (has_cls cHigh) tbl) (fst ds),
+              forget pool (filter (has_cls cProdHigh) tbl) (snd ds))
   else ds.
 
-(* one Balance call *)
-Definition balance_gen (fx : bool) (c : cfg) (ns : list nstat) (rs : list nround) (ds : dstate)
-  : list ev * dstate :=
-  process_pool c (table c ns rs) (pool_size c ns rs) (pre_round fx (table c ns rs) ds).
+(* processOneNodePool reached its end (none of the early exits was taken): only then the pool's
+   source nodes are added to processedNodes *)
+Definition completed (c : cfg) (tbl : list row) (psize : Z) (ds : dstate) : bool :=
+  let src := filter (has_cls cHigh) tbl in
+  let psrc := filter (has_cls cProdHigh) tbl in
+  if is_nil src && is_nil psrc then false
+  else
+    let '(abn, _) := real_abnormal c src (fst ds) in
+    let '(pabn, _) := real_abnormal c psrc (snd ds) in
+    if is_nil abn && is_nil pabn then false
+    else
+      let low := filter (has_cls cLow) tbl in
+      let plow := filter (has_cls cProdLow) tbl in
+      let both := filter (has_cls cBothLow) tbl in
+      if is_nil low && is_nil plow && is_nil both then false
+      else
+        let all_low := Z.of_nat (length low + length plow + length both) in
+        if all_low <=? cN c then false
+        else if all_low =? psize then false
+        else true.
 
-(* a history: successive rounds over the same plugin instance *)
-Fixpoint run_gen (fx : bool) (c : cfg) (ns : list nstat) (rounds : list (list nround)) (ds : dstate)
-  : list (list ev * dstate) :=
-  match rounds with
-  | [] => []
-  | rs :: t => let '(evs, ds') := balance_gen fx c ns rs ds in (evs, ds') :: run_gen fx c ns t ds'
+(* ---- repaired variant (finding C18-processed-nodes) ----
+   [processed_repaired] says which variant /repo contains: false = processedNodes is ignored by a
+   pool with a nil selector and only the high (not the prod-high) source nodes are recorded. *)
+Definition processed_repaired : bool := false.
+
+(* what the Spec needs to know about one pool of one Balance call: its configuration, the ids of
+   its nodes (after filterNodes; the pool size of the "all nodes are underused" exit is their
+   number) and its usage / threshold table *)
+Notation ptab := (cfg * list Z * list row)%type.
+Definition pt_cfg (pt : ptab) : cfg := fst (fst pt).
+Definition pt_ids (pt : ptab) : list Z := snd (fst pt).
+Definition pt_tbl (pt : ptab) : list row := snd pt.
+Definition pt_size (pt : ptab) : Z := Z.of_nat (length (pt_ids pt)).
+
+(* one pool of one Balance call (processOneNodePool) *)
+Definition pool_step (fx fxp : bool) (c : cfg) (ns : list nstat) (rs : list nround)
+  (processed : list Z) (ds : dstate) : (ptab * list ev) * (list Z * dstate) :=
+  let pool := pool_nodes fxp c processed ns rs in
+  let ids := map mid pool in
+  let tbl := table_of c pool in
+  let psize := Z.of_nat (length ids) in
+  let ds0 := pre_round fx ids tbl ds in
+  let '(evs, ds') := process_pool c tbl psize ds0 in
+  let processed' :=
+    if completed c tbl psize ds0
+    then processed ++ map rid (filter (has_cls cHigh) tbl)
+                   ++ (if fxp then map rid (filter (has_cls cProdHigh) tbl) else [])
+    else processed in
+  ((c, ids, tbl, evs), (processed', ds')).
+
+(* the pools of one Balance call, in order *)
+Fixpoint pools_run (fx fxp : bool) (bc : list cfg) (ns : list nstat) (rs : list nround)
+  (processed : list Z) (ds : dstate) : list (ptab * list ev) * dstate :=
+  match bc with
+  | [] => ([], ds)
+  | c :: t =>
+    let '(res, (processed', ds')) := pool_step fx fxp c ns rs processed ds in
+    let '(l, ds'') := pools_run fx fxp t ns rs processed' ds' in
+    (res :: l, ds'')
   end.
 
-Definition balance := balance_gen reset_on_normal.
-Definition run := run_gen reset_on_normal.
+(* one Balance call *)
+Definition balance_gen (fx fxp : bool) (bc : list cfg) (ns : list nstat) (rs : list nround) (ds : dstate)
+  : list (ptab * list ev) * dstate :=
+  pools_run fx fxp bc ns rs [] ds.
+
+(* the Evict calls of a Balance call, in the order in which they are made *)
+Definition evs_of (l : list (ptab * list ev)) : list ev := concat (map snd l).
+
+(* a history: successive rounds over the same plugin instance *)
+Fixpoint run_gen (fx fxp : bool) (bc : list cfg) (ns : list nstat) (rounds : list (list nround)) (ds : dstate)
+  : list (list (ptab * list ev) * dstate) :=
+  match rounds with
+  | [] => []
+  | rs :: t => let '(l, ds') := balance_gen fx fxp bc ns rs ds in (l, ds') :: run_gen fx fxp bc ns t ds'
+  end.
+
+Definition balance := balance_gen reset_on_normal processed_repaired.
+Definition run := run_gen reset_on_normal processed_repaired.
